@@ -527,6 +527,55 @@ def rule_d3(F):
     return r
 
 
+def rule_d4(F):
+    """A constant that TRANSITIVELY reads a context variable is rejected.  'Transitively' is a reachability question on the reference
+    graph, and reference graphs have cycles (mutually recursive functions), so the answer cannot be computed by one pass over any
+    linear order of the items: the function that reports `constant uses context` must get its verdict from a traversal - a recursive
+    function over the references, or a worklist loop (a loop that both takes from and adds to a collection)."""
+    from ..callgraph import CallGraph
+    import json
+    r = RuleResult("C14.D4", "the 'constant uses context' verdict comes from a graph traversal over the references (recursion or worklist), not from a single pass over an item order", floor=1)
+    anchors = [b for b in F.all_bodies() if b.mir and "{closure" not in b.path and b.path.startswith("typechecker::")
+               and any(hir.last(mir.callee_def(t) or "") == "error_constant_uses_context" for _, t in mir.calls(b))]
+    if not anchors:
+        r.missing("a caller of error_constant_uses_context in the type checker")
+        return r
+    cg = CallGraph(F)
+    for a in anchors:
+        seen, _ = cg.reachable([a.path])
+        seen = {x for x in seen if x.startswith("typechecker::")}
+        # closures of the anchor count as its body
+        traversal = None
+        for x in sorted(seen):
+            xb = F.body(x)
+            if xb is None or not xb.mir:
+                continue
+            # (a) recursion: x reaches itself, and x (or a closure of x) looks at the references
+            sub, _ = cg.reachable(sorted(cg.edges.get(x, ())))
+            txt = json.dumps(xb.mir["blocks"])
+            if x in sub and ('"references"]' in txt or any('"references"]' in json.dumps(F.body(c).mir["blocks"]) for c in sub if c.startswith(x + "::{closure") and F.body(c) and F.body(c).mir)):
+                traversal = ("recursive function", x)
+                break
+            # (b) worklist: a loop that pops from and pushes to a collection
+            merged = {}
+            for h, nodes in mir.natural_loops(xb):
+                merged.setdefault(h, set()).update(nodes)
+            for h, nodes in merged.items():
+                names_ = {hir.last(mir.callee_def(t) or "") for bi, t in mir.calls(xb) if bi in nodes}
+                if names_ & {"pop", "pop_front", "pop_back", "pop_first", "pop_last"} and names_ & {"push", "push_back", "push_front", "insert", "extend"}:
+                    traversal = ("worklist loop", x)
+                    break
+            if traversal:
+                break
+        r.inst("verdict in %s" % a.path, {"reported_by": a.path, "traversal": traversal})
+        if traversal is None:
+            r.bad(a.path, "context use decided without a traversal", relfile(a.file), a.line,
+                  "%s reports `constant uses context`, but nothing it calls walks the reference graph (no recursive function over `references`, no worklist loop): "
+                  "a single pass over a list of items cannot follow references inside a cycle of mutually recursive functions, so a constant that reaches the context "
+                  "only through such a cycle is accepted and its initialiser runs without a context" % hir.last(a.path))
+    return r
+
+
 def rules(ctx):
     F = ctx["F"]
-    return [rule_d1(F), rule_d2(F), rule_d3(F)]
+    return [rule_d1(F), rule_d2(F), rule_d3(F), rule_d4(F)]
